@@ -315,7 +315,10 @@ def binop(ev, op, a, b, node, fr):
         if m is not None and opname is not None:
             return ev.call(m, [ExtV(f"ufunc:{opname}:2:1"), StrV("__call__"), a, b], {}, self_val=o, depth=(fr.depth + 1 if fr is not None else 1))
     if isinstance(a, BoolV) and isinstance(b, BoolV) and isinstance(op, (ast.BitAnd, ast.BitOr, ast.BitXor)):
-        return BoolV({ast.BitAnd: a.b and b.b, ast.BitOr: a.b or b.b, ast.BitXor: a.b != b.b}[type(op)])
+        r_ = BoolV({ast.BitAnd: a.b and b.b, ast.BitOr: a.b or b.b, ast.BitXor: a.b != b.b}[type(op)])
+        if getattr(a, "np", False) or getattr(b, "np", False):
+            r_.np = True          # numpy.bool_ & bool, numpy.bool_ ^ bool, ... are numpy.bool_ (not the Python singletons True / False)
+        return r_
     if isinstance(a, BoolV):
         a = Num(int(a.b))
     if isinstance(b, BoolV):
@@ -473,8 +476,12 @@ def binop(ev, op, a, b, node, fr):
             r = round_to_double(cr) * rest
             if tag == "unit":
                 unit = r
+    dt_out = a.dtype or b.dtype
+    if isinstance(a.dtype, ExtV) and isinstance(b.dtype, ExtV) and a.dtype.dotted != b.dtype.dotted and a.shape and b.shape \
+            and _dtype_name(a.dtype) in NP_DTYPES and _dtype_name(b.dtype) in NP_DTYPES and not isinstance(op, (ast.Div, ast.FloorDiv, ast.Mod, ast.Pow)):
+        dt_out = promote_dtype(a.dtype, b.dtype)       # two typed arrays: NumPy's promotion (float32 + complex128 -> complex128)
     out = Num(r, kind=kind, shape=shape, axes=axes, unit=unit, tag=tag,
-              backend=a.backend or b.backend, dtype=a.dtype or b.dtype,
+              backend=a.backend or b.backend, dtype=dt_out,
               isfloat=a.isfloat or b.isfloat or isinstance(op, ast.Div) or kind in ("quantity", "time"))
     return out
 
@@ -731,8 +738,17 @@ def nd_to_indexed(ev, x: NdArr):
     expr = build(0, 0, total)
     kinds = {e.kind for e in x.items}
     units = {e.unit for e in x.items}
+    dt_ = getattr(x, "dtype", None)
+    if dt_ is None and x.items and all(isinstance(e, Num) and e.expr.is_number for e in x.items):
+        # an explicit array of Python numbers has NumPy's default dtype for them: complex128 / float64 / int64
+        if any(e.expr.is_real is False for e in x.items):
+            dt_ = ExtV("numpy.complex128")
+        elif all(e.expr.is_integer and not e.isfloat for e in x.items):
+            dt_ = ExtV("numpy.int64")
+        else:
+            dt_ = ExtV("numpy.float64")
     return Num(expr, kind="array" if kinds <= {"number", "array"} else kinds.pop(), shape=tuple(sp.Integer(k) for k in x.shape), axes=tuple(syms),
-               unit=units.pop() if len(units) == 1 else None, dtype=getattr(x, "dtype", None), isfloat=any(e.isfloat for e in x.items))
+               unit=units.pop() if len(units) == 1 else None, dtype=dt_, isfloat=any(e.isfloat for e in x.items))
 
 
 def nd_binop(ev, op, a, b, node, fr):
@@ -1091,6 +1107,10 @@ def val_getattr(ev, obj, name, fr, node):
             return Num(len(obj.items))
         if name in ("real", "imag"):
             return obj.map(lambda x: num_getattr(ev, x, name, fr, node))
+        if name == "value" and obj.items and all(isinstance(x, Num) and x.kind in ("quantity", "number", "array") for x in obj.items):
+            return obj.map(lambda x: num_getattr(ev, x, "value", fr, node) if x.kind == "quantity" else x)     # the numbers of an array Quantity
+        if name == "unit" and obj.items and all(isinstance(x, Num) and x.kind == "quantity" for x in obj.items):
+            return num_getattr(ev, obj.items[0], "unit", fr, node)
         if name == "isscalar":
             return BoolV(False)
         if name == "flat":
@@ -1260,7 +1280,12 @@ def call_method(ev, recv, name, args, kwargs, fr, node):
         # e.g. Time.isclose bound on an ExtV is handled in call_ext; nested bound builtins are not expected
         ev.unsupported(f"method chain .{recv.name}.{name}", node, fr)
     if isinstance(recv, Num):
-        return num_method(ev, recv, name, args, kwargs, fr, node)
+        res_ = num_method(ev, recv, name, args, kwargs, fr, node)
+        if name in ("astype", "copy") and isinstance(res_, Num) and res_ is not recv and (recv.shape or recv.tag == "data") \
+                and not (isinstance(kwargs.get("copy"), BoolV) and not kwargs["copy"].b):
+            # a COPY: it holds what the source held at this moment (stores logged before this point), and goes its own way afterwards
+            res_.copied_from = (recv, len(ev.trace))
+        return res_
     if isinstance(recv, HandleV):
         return handle_method(ev, recv, name, args, kwargs, fr, node)
     if isinstance(recv, PolyV):
@@ -1693,7 +1718,7 @@ def nd_method(ev, x: NdArr, name, args, kwargs, fr, node):
             if t not in (True, False):
                 ev.unsupported(f"method .{name}() on an explicit array with undecided elements", node, fr)
             vals.append(t)
-        return BoolV(any(vals) if name == "any" else all(vals))
+        return np_bool(any(vals) if name == "any" else all(vals))
     if name == "astype":
         out = NdArr(x.shape, list(x.items))
         out.dtype = args[0] if args else kwargs.get("dtype")
@@ -2708,6 +2733,20 @@ def h_rfftfreq(ev, args, kwargs, fr, node, backend=None):
     return Num(kb / (n * d.expr), kind="quantity" if d.kind == "quantity" else "array", shape=(m,), axes=(kb,), backend=backend)
 
 
+def h_isinf(ev, args, kwargs, fr, node):
+    x = args[0]
+    if isinstance(x, NdArr):
+        return x.map(lambda e: h_isinf(ev, [e], kwargs, fr, node))
+    if not isinstance(x, Num):
+        ev.unsupported(f"isinf({x!r})", node, fr)
+    e = sp.sympify(x.expr)
+    if e.has(sp.oo, -sp.oo, sp.zoo):
+        return BoolV(True)
+    if e.is_finite or all(getattr(s_, "is_finite", None) for s_ in e.free_symbols) and not e.has(sp.nan):
+        return BoolV(False)        # built from finite symbols and numbers
+    return CondV(sp.Ne(sp.Function("IsInf")(e), 0))
+
+
 def h_may_share(ev, args, kwargs, fr, node):
     """np.may_share_memory(a, b) on the evaluator's buffer identities: model objects carry `_buf` (views keep their base's), plain
     arrays share when one is (a view of) the other."""
@@ -3382,7 +3421,21 @@ def h_quantity(ev, args, kwargs, fr, node, angle=False):
     return x.like(x.expr * ue, kind="quantity", unit=ue)
 
 
+def np_bool(b):
+    """numpy.bool_: equal to the Python bool, but another object -- `np.True_ is True` is False."""
+    r_ = BoolV(b)
+    r_.np = True
+    return r_
+
+
 def h_npall(ev, args, kwargs, fr, node, any_=False):
+    r_ = _h_npall(ev, args, kwargs, fr, node, any_)
+    if isinstance(r_, BoolV) and not getattr(r_, "np", False):
+        return np_bool(r_.b)
+    return r_
+
+
+def _h_npall(ev, args, kwargs, fr, node, any_=False):
     x = args[0]
     if isinstance(x, (BoolV, CondV)):
         return x
@@ -3392,6 +3445,21 @@ def h_npall(ev, args, kwargs, fr, node, any_=False):
         t = ev.truth(x, fr, node)
         return BoolV(t) if t in (True, False) else CondV(t)
     ev.unsupported(f"np.all of {x!r}", node, fr)
+
+
+def h_timedelta(ev, args, kwargs, fr, node):
+    """astropy.time.TimeDelta(x, format="sec"|"jd") of a bare number, or of a time Quantity: a duration."""
+    x = args[0]
+    fmt = kwargs.get("format", args[1] if len(args) > 1 else NONE)
+    if isinstance(x, Num) and x.kind == "quantity":
+        dimension_check(ev, x.expr, 1 / UNITS["Hz"], "TimeDelta(<Quantity>)", node)
+        return x.like(x.expr, kind="quantity", unit=1 / UNITS["Hz"])
+    if isinstance(x, Num) and x.kind in ("number", "array"):
+        scale = {"sec": 1, "jd": 86400}.get(fmt.s if isinstance(fmt, StrV) else "jd")
+        if scale is None:
+            ev.unsupported(f"TimeDelta format {fmt!r}", node, fr)
+        return Num(x.expr * scale / UNITS["Hz"], kind="quantity", shape=x.shape, axes=x.axes, unit=1 / UNITS["Hz"])
+    ev.unsupported(f"TimeDelta({x!r})", node, fr)
 
 
 def h_time(ev, args, kwargs, fr, node):
@@ -3985,6 +4053,7 @@ EXT = {
     "numpy.fft.fftfreq": h_fftfreq, "numpy.fft.rfftfreq": h_rfftfreq,
     "dask.array.fft.rfftfreq": lambda ev, a, k, fr, n: h_rfftfreq(ev, a, k, fr, n, backend="dask"),
     "dask.array.fft.fftfreq": lambda ev, a, k, fr, n: h_fftfreq(ev, a, k, fr, n, backend="dask"),
+    "numpy.isinf": lambda ev, a, k, fr, n: h_isinf(ev, a, k, fr, n), "math.isinf": lambda ev, a, k, fr, n: h_isinf(ev, a, k, fr, n),
     "numpy.may_share_memory": lambda ev, a, k, fr, n: h_may_share(ev, a, k, fr, n), "numpy.shares_memory": lambda ev, a, k, fr, n: h_may_share(ev, a, k, fr, n),
     "numpy.zeros_like": lambda ev, a, k, fr, n: h_zeros_like(ev, a, k, fr, n, 0), "numpy.ones_like": lambda ev, a, k, fr, n: h_zeros_like(ev, a, k, fr, n, 1),
     "numpy.empty_like": lambda ev, a, k, fr, n: h_zeros_like(ev, a, k, fr, n, 0),
@@ -4030,7 +4099,7 @@ EXT = {
     "numpy.unique": lambda ev, a, k, fr, n: h_unique(ev, a, k, fr, n),
     "numpy.count_nonzero": lambda ev, a, k, fr, n: Num(sp.Function("CountNonzero")(a[0].expr)),
     "numpy.all": h_npall, "numpy.any": lambda ev, a, k, fr, n: h_npall(ev, a, k, fr, n, any_=True),
-    "astropy.time.Time": h_time, "astropy.time.Time.isclose": h_isclose_time,
+    "astropy.time.TimeDelta": h_timedelta, "astropy.time.Time": h_time, "astropy.time.Time.isclose": h_isclose_time,
     "astropy.units.isclose": h_isclose_q, "astropy.units.allclose": h_isclose_q,
     "dask.delayed": h_delayed, "dask.base.tokenize": h_tokenize, "dask.tokenize": h_tokenize, "dask.array.from_delayed": h_from_delayed, "dask.array.map_blocks": h_map_blocks,
     "contextlib.nullcontext": h_nullcontext, "baseband.open": h_baseband_open, "numpy.polynomial.Polynomial": h_polynomial,
